@@ -194,8 +194,11 @@ FORBIDDEN = re.compile(r'\b(Admitted|admit|Axiom|Parameter|Conjecture|Admit Obli
 
 def scan_sources():
     bad = []
+    # the development = the files listed in _CoqProject (what `make` builds and the theorems rest on); files a builder is still
+    # writing next to them are not part of it until they are listed there
+    listed = set(l.strip() for l in open(os.path.join(COQ, '_CoqProject')) if l.strip().endswith('.v'))
     for path in glob.glob(os.path.join(COQ, '**', '*.v'), recursive=True):
-        if '/cases/' in path:
+        if '/cases/' in path or os.path.relpath(path, COQ) not in listed:
             continue
         src = open(path).read()
         # strip comments (non-nested is enough for our sources) before scanning
